@@ -23,7 +23,7 @@ FLAGS_c15 = -D_GLIBCXX_ASSERTIONS
 FLAGS_c17 = -fsanitize=address,undefined -fno-sanitize-recover=undefined -D_GLIBCXX_ASSERTIONS
 
 # checks built in parts: name:count
-PARTED  = c01:3 c02:3 c03:9 c05:3 c06:3 c10:3 c11:3 c12:3 c15:9 c17:3 c19:3 c20:3
+PARTED  = c01:3 c02:3 c03:9 c04:6 c05:3 c06:3 c10:3 c11:3 c12:3 c15:9 c17:3 c19:3 c20:3
 PARTED_NAMES = $(foreach p,$(PARTED),$(firstword $(subst :, ,$(p))))
 parts_of = $(shell seq 0 $$(( $(word 2,$(subst :, ,$(1))) - 1 )))
 EXISTING = $(foreach c,$(filter-out $(PARTED_NAMES),$(CHECKS)),$(if $(wildcard checks/$(c).cpp),$(B)/$(c))) \
